@@ -21,6 +21,9 @@ def dispatch(prop, tier, seed):
     if prop in ('C08', 'C09'):
         from . import daemon_updater
         return daemon_updater.run_check(prop, tier, seed)
+    if prop in ('C12', 'C13'):
+        from . import daemon_poller
+        return getattr(daemon_poller, 'check_' + prop.lower())(tier, seed)
     raise SystemExit('no check for ' + prop)
 
 
